@@ -1,4 +1,5 @@
 SPECIFICATION Spec
 CONSTANTS Scenarios <- ScWeak1
+          ServerStrictRule = "peer"
 INVARIANTS Emit
 CHECK_DEADLOCK FALSE
